@@ -1,6 +1,7 @@
 import Driver.Util
 import NutsModel.C10.DidStore
 import NutsModel.C10.Shelves
+import NutsModel.C10.DocShelves
 import NutsModel.Facts.C10
 open Lean Nuts.Drv Nuts.C10 Nuts
 
@@ -38,6 +39,7 @@ def cfg : Cfg := cfgOf (fun _ l => l) Nuts.Facts.C10.mergeSortedFields
 
 structure St where
   last : String := "no-seq"
+  raw : String := "no-seq"
 
 /-- FNV-1a 64 over the UTF-8 bytes (same function in the Go harness): short names for content hashes -/
 def fnv64 (s : String) : UInt64 :=
@@ -86,6 +88,31 @@ def probeMeta (mine : List Event) (p : PSpec) : ResolveMeta :=
 structure Both where
   s : Store := {}
   sh : List (String × Shelves) := []
+  blob : Blob := {}
+  stats : Stats := {}
+
+def hex2 (n : Nat) : String := String.ofList [hexDigit (n / 16 % 16), hexDigit (n % 16)]
+
+def showBytes : Option (List Nat) → String
+  | none => "-"
+  | some l => String.join (l.map hex2)
+
+def sortStrs (l : List String) : List String := (l.toArray.qsort (· < ·)).toList
+
+/-- the literal shelves in the harness's canonical form (`vRawDump`) -/
+def showRaw (b : Both) : String :=
+  let latest := sortStrs (b.sh.filterMap fun (d, st) => st.latest.map fun n => s!"{d}>{d}{n}")
+  let metas := sortStrs (b.sh.flatMap fun (d, st) => st.metas.map fun (n, p) => s!"{d}{n}:v{p.2.version}")
+  let evrefs := sortStrs (b.sh.filterMap fun (d, st) =>
+    if st.events.isEmpty then none
+    else some (d ++ ":" ++ String.intercalate "/" (st.events.map fun x => match x.metaRef with | some n => s!"{d}{n}" | none => "")))
+  let conf := sortStrs (b.sh.filterMap fun (d, st) => if st.conflicted then some (d ++ ":00") else none)
+  let contentName (bytes : String) : String := "H" ++ hex16 (fnv64 bytes)
+  let docName (h : String) : String := match alGet b.blob.docs h with | some bytes => contentName bytes | none => "?absent"
+  let txs := sortStrs (b.blob.txRef.map fun (r, h) => shortRef r ++ ">" ++ docName h)
+  let docs := sortStrs (b.blob.docs.map fun (h, bytes) => contentName bytes ++ (if h == "H:" ++ bytes then "" else "!key"))
+  let j := String.intercalate ","
+  s!"raw latest=[{j latest}] metas=[{j metas}] evrefs=[{j evrefs}] conf=[{j conf}] cc={showBytes b.stats.cc} dc={showBytes b.stats.dc} tx=[{j txs}] docs=[{j docs}]"
 
 /-- a Resolve probe is answered by BOTH layers of the model (theorem `shelf_resolve_eq_resolve` says they agree);
     a disagreement is printed, so the correspondence also ties the shelf-level model to the implementation -/
@@ -155,12 +182,23 @@ def applySwaps : List (Event × Nat) → List (Event × Nat)
 def runSeq (b : Both) : List (Event × Nat) → Res Both
   | [] => .ok b
   | (e, code) :: rest =>
-    if code = 1 ∨ code = 2 ∨ code = 3 ∨ code > 100 then runSeq b rest
+    if code = 1 ∨ code = 2 ∨ code = 3 ∨ code > 100 then
+      -- the first write transaction (writeDocument: shelf operations 1 and 2) commits on its own
+      let mode := if code = 1 ∨ code = 101 ∨ code = 102 then 1 else 2
+      match dAdd cfg b.blob b.s e mode with
+      | .ok (blob', _) => runSeq { b with blob := blob' } rest
+      | .err x => .err x
+      | .panic x => .panic x
     else
       let s0 := if code = 4 then reload b.s else b.s
-      match add cfg s0 e, sAdd cfg ((alGet b.sh e.doc.id).getD {}) e with
-      | .ok s', .ok none => runSeq { s := s', sh := b.sh } rest
-      | .ok s', .ok (some st') => runSeq { s := s', sh := alPut b.sh e.doc.id st' } rest
+      match dAdd cfg b.blob s0 e 0, sAdd cfg ((alGet b.sh e.doc.id).getD {}) e with
+      | .ok (blob', s'), .ok none => runSeq { b with s := s', blob := blob' } rest
+      | .ok (blob', s'), .ok (some st') =>
+        let lastVersion := match (s'.get e.doc.id).chain.getLast? with | some p => p.2.version | none => 0
+        match statsStep b.stats (s0.get e.doc.id).conflicted (s'.get e.doc.id).conflicted lastVersion with
+        | .ok stats' => runSeq { s := s', sh := alPut b.sh e.doc.id st', blob := blob', stats := stats' } rest
+        | .err x => .err ("stats-model:" ++ x)
+        | .panic x => .panic ("stats-model:" ++ x)
       | .ok _, .err x => .err ("shelf-model:" ++ x)
       | .ok _, .panic x => .panic ("shelf-model:" ++ x)
       | .err x, _ => .err x
@@ -179,10 +217,11 @@ def step (st : St) (j : Json) : St × List String :=
     | .ok b =>
       let o := observe b evs.toList times probes false
       -- restart: the durable state survives, the conflicted cache is rebuilt from the shelves
-      ({ last := observe { b with s := reload b.s } evs.toList times probes true }, [o])
-    | .err e => ({ last := "err:" ++ e }, ["err:" ++ e])
-    | .panic e => ({ last := "panic:" ++ e }, ["panic:" ++ e])
+      ({ last := observe { b with s := reload b.s } evs.toList times probes true, raw := showRaw b }, [o])
+    | .err e => ({ last := "err:" ++ e, raw := "err:" ++ e }, ["err:" ++ e])
+    | .panic e => ({ last := "panic:" ++ e, raw := "panic:" ++ e }, ["panic:" ++ e])
   | "again" => (st, [st.last])
+  | "raw" => (st, [st.raw])
   | o => (st, ["bad-op:" ++ o])
 
 end Nuts.Drv.C10
